@@ -16,7 +16,7 @@ LEVEL = "exploration"
 RULE = (
     "One generated definition (identifier names; control x calibration combination forced round-robin over all four; "
     "both CSE settings; k in [0.5,8] or disabled; 1..2 sensors of 1..3 readings) is compiled by python.compile_ekf and "
-    "generated+compiled by cpp.compile_ekf / g++. 3 predictions (dt both signs, SPD covariance, control) and 4 sensor "
+    "generated+compiled by cpp.compile_ekf / g++. 4 predictions (dt both signs and exactly 0, consecutive inputs sharing dt/state/control groups, SPD covariance, control) and 4 sensor "
     "updates (readings targeted at 0.2/0.9/1.1/5 x threshold so no decision is within rounding of the boundary) are fed "
     "to both through named fields. Oracle: C++ state/covariance/stored innovation equal Python's by name within "
     "1e-9*abs-scale, accept/reject identical, and both equal the textbook mpmath EKF (so 'both wrong the same way' is "
@@ -35,9 +35,9 @@ def cases(combo, innovation):
     def _c(draw):
         spec = draw(models.model_specs(names="ident", n_state=(1, 4), n_control=(1, 2), n_calib=(1, 2),
                                        n_sensors=(1, 2), n_readings=(1, 3), depth=2, sensor_depth=2, combo=combo,
-                                       innovation=innovation))
+                                       innovation=innovation, template="mixed"))
         n = len(spec["state"])
-        preds = [{"point": draw(models.points(spec)), "P": draw(ekf.spd(n))} for _ in range(3)]
+        preds = [{"point": pt, "P": draw(ekf.spd(n))} for pt in draw(models.point_sequences(spec, 4, extra_zero_dt=True))]
         ups = []
         for tau in draw(st.permutations([0.2, 0.9, 1.1, 5.0])):
             ups.append({"key": draw(st.sampled_from(sorted(spec["sensors"]))), "point": draw(models.points(spec)),
